@@ -89,12 +89,14 @@ pub fn expired(deadline: Instant) -> bool {
 
 /// Escape a string for display in summaries.
 pub fn show(s: &str) -> String {
-    let mut o = format!("{s:?}");
-    if o.len() > 200 {
-        o.truncate(200);
-        o.push('…');
+    let o = format!("{s:?}");
+    if o.chars().count() > 200 {
+        let mut t: String = o.chars().take(200).collect();
+        t.push('…');
+        t
+    } else {
+        o
     }
-    o
 }
 
 /// Greedy delta-debugging over characters: remove chunks while `fails` stays true.
